@@ -3,7 +3,9 @@ package c09
 import (
 	"encoding/json"
 	"fmt"
+	"os"
 	"runtime"
+	"strconv"
 	"strings"
 	"testing"
 	"time"
@@ -41,6 +43,21 @@ func runWatched(c progcheck.Case, o harness.Opts) (tr *harness.Trace, hung bool)
 			return nil, true
 		}
 	}
+}
+
+// residentBytes reads the process's resident set size (the race detector's
+// shadow memory is not part of Go's own statistics).
+func residentBytes() uint64 {
+	b, err := os.ReadFile("/proc/self/statm")
+	if err != nil {
+		return 0
+	}
+	f := strings.Fields(string(b))
+	if len(f) < 2 {
+		return 0
+	}
+	pages, _ := strconv.ParseUint(f[1], 10, 64)
+	return pages * uint64(os.Getpagesize())
 }
 
 // settle waits for goroutines of finished coroutines to exit; returns the
@@ -169,7 +186,7 @@ emit("suspended", #cos) local co = coroutine.wrap(function() while true do end e
 func TestC09(t *testing.T) {
 	rec := ev.New("C09")
 	defer Finish(t, rec)
-	rec.Rule("(1) exhaustive scripts over two coroutines: A's body is every sequence of <= 2 (quick) / 3 (thorough) actions, B's every sequence of <= 2, from {yield, resume the peer, resume self, read statuses/isyieldable, error, close the peer, yield inside pcall, declare a to-be-closed variable, coroutine.running, yield inside a pcall that holds a to-be-closed variable, a to-be-closed variable whose handler creates/resumes/wraps/closes coroutines, one whose handler yields}; scripts whose values the manual leaves open are run all the same and judged on the model-free clauses only (liveness-only); driven by a main program that resumes each up to three times with values, reads statuses, yields from main, closes both and resumes a dead one; (2) rapid programs from the coroutine-heavy profile (generators, wrap, nested coroutines, yield across pcall, close with pending handlers, errors inside coroutines) in several renderings; (3) kill-by-quota templates inside coroutines. Oracle: reference interpreter for values/status/errors; Go race detector (the binary is built with -race; any report attributed to the running program is a violation); a watchdog for deadlock; goroutine count back to baseline when every coroutine has ended. GOMAXPROCS is varied. Non-trivial: both coroutines were resumed and at least one of {nested resume, error delivered to a resumer, close of a suspended started coroutine, kill} occurred; distinct by program text.")
+	rec.Rule("(1) exhaustive scripts over two coroutines: A's body is every sequence of <= 2 (quick) / 3 (thorough) actions, B's every sequence of <= 2, from {yield, resume the peer, resume self, read statuses/isyieldable, error, close the peer, yield inside pcall, declare a to-be-closed variable, coroutine.running, yield inside a pcall that holds a to-be-closed variable, a to-be-closed variable whose handler creates/resumes/wraps/closes coroutines, one whose handler yields}; scripts whose values the manual leaves open are run all the same and judged on the model-free clauses only (liveness-only); driven by a main program that resumes each up to three times with values, reads statuses, yields from main, closes both and resumes a dead one; (2) rapid programs from the coroutine-heavy profile (generators, wrap, nested coroutines, yield across pcall, close with pending handlers, errors inside coroutines) in several renderings; (3) kill-by-quota templates inside coroutines; (4) a coroutine suspended INSIDE a callback: 30 places where the library or the VM calls back into Lua (order functions, replacement functions and tables, readers, __tostring/__index/__newindex/arithmetic/comparison/__close/__call handlers, iterators, message handlers) x {direct, in pcall, in a nested function, in a pcall holding a to-be-closed variable} x {closed while suspended there, resumed to the end, resumed and the callback raises, closed after its own resumer was closed}, expected traces written out from the manual (they do not depend on the place). The thorough tier visits the 3-action grid in a seeded random order and stops when the shard's resident memory (2.5 GiB) or 20 minutes are used up (sampling budget, no verdict depends on it; reported under grid_stopped). Oracle: reference interpreter for values/status/errors; Go race detector (the binary is built with -race; any report attributed to the running program is a violation); a watchdog for deadlock; goroutine count back to baseline when every coroutine has ended. GOMAXPROCS is varied. Non-trivial: both coroutines were resumed and at least one of {nested resume, error delivered to a resumer, close of a suspended started coroutine, kill} occurred; distinct by program text.")
 	rec.Assume("schedules inside Go's runtime are sampled (GOMAXPROCS, repetition), not enumerated; the race detector reports a conflicting pair whenever both accesses execute without happens-before, independent of timing")
 	rec.Assume("a wall-clock watchdog (2 x 60 s) is used only to call a run that never returns a deadlock")
 	progcheck.ApplyKnownFindings(rec)
@@ -214,10 +231,42 @@ func TestC09(t *testing.T) {
 	grid := luagen.CoroutineScripts(rec.Pick(2, 3))
 	rec.Set("grid_size", len(grid))
 	nviol := 0
-	for i, gc := range grid {
-		if !rec.Mine(i) || nviol >= 5 {
+	// The thorough grid (A's sequences up to 3 actions) is far larger than what
+	// one pass can run: never-finished coroutines keep their goroutines, and
+	// under the race detector every script costs memory that is not given
+	// back. The thorough tier therefore visits the grid in a seeded
+	// pseudo-random order and stops, without any verdict depending on it, when
+	// the shard's resident memory or its share of the time is used up; the
+	// quick tier's grid (<= 2 actions each) is always enumerated completely.
+	order := make([]int, len(grid))
+	for i := range order {
+		order[i] = i
+	}
+	gridStart, gridDone, gridStopped := time.Now(), 0, ""
+	if rec.Thorough() {
+		x := rec.BaseSeed()*0x9E3779B97F4A7C15 + 77 // the same order in every shard
+		for i := len(order) - 1; i > 0; i-- {
+			x = x*6364136223846793005 + 1442695040888963407
+			j := int((x >> 33) % uint64(i+1))
+			order[i], order[j] = order[j], order[i]
+		}
+	}
+	for pos, i := range order {
+		gc := grid[i]
+		if !rec.Mine(pos) || nviol >= 5 {
 			continue
 		}
+		if rec.Thorough() && gridDone%100 == 0 {
+			if rss := residentBytes(); rss > 2500<<20 {
+				gridStopped = fmt.Sprintf("resident memory %d MiB", rss>>20)
+			} else if time.Since(gridStart) > 20*time.Minute {
+				gridStopped = "20 minutes"
+			}
+			if gridStopped != "" {
+				break
+			}
+		}
+		gridDone++
 		runtime.GOMAXPROCS(procs[i%len(procs)])
 		src, lines := mlua.Render(gc.Block, nil)
 		res := progcheck.Model(gc.Block, lines, nil)
@@ -271,7 +320,34 @@ func TestC09(t *testing.T) {
 			}
 		}
 	}
-	rec.Exhaustive(true)
+	rec.Exhaustive(gridStopped == "")
+	rec.Set("grid_scripts_run_by_this_shard", gridDone)
+	if gridStopped != "" {
+		rec.Set("grid_stopped", "after "+fmt.Sprint(gridDone)+" scripts of this shard's share (seeded random order): "+gridStopped)
+		fmt.Printf("C09: grid stopped after %d scripts (%s)\n", gridDone, gridStopped)
+	}
+	if nviol > 0 {
+		return
+	}
+
+	// (4) coroutines suspended inside a callback of the library / the VM
+	for i, cc := range callbackCases() {
+		if !rec.Mine(i) {
+			continue
+		}
+		runtime.GOMAXPROCS(procs[i%len(procs)])
+		c := cc.progCase()
+		rec.Eval()
+		rec.Class("callback:" + cc.name[:strings.Index(cc.name, ":")])
+		rec.NonTrivial(cc.src)
+		if msg := k.check(c, harness.Opts{}, true); msg != "" {
+			rec.Violation("program", c, cc.name+": "+msg+"\n--- program ---\n"+progcheck.Numbered(cc.src))
+			nviol++
+			if strings.HasPrefix(msg, "deadlock") || nviol >= 5 {
+				return
+			}
+		}
+	}
 	if nviol > 0 {
 		return
 	}
